@@ -632,6 +632,14 @@ fn cache_files(cx: &Ctx, thorough: bool) {
         b"{\"peers\":[],\"last_updated\":0,\"network_version\":1}".to_vec(),
         b"{\"nodes\":[]}".to_vec(),
     ];
+    let mut foreign = foreign;
+    // text that is no cache file, one multi-byte character starting at every byte offset 0..=600
+    for k in 0..=600usize {
+        let mut t = "x".repeat(k);
+        t.push_str(if k % 2 == 0 { "\u{e9}" } else { "\u{20ac}" });
+        t.push_str(&"y".repeat(700 - k));
+        foreign.push(t.into_bytes());
+    }
     for (i, bytes) in foreign.iter().enumerate() {
         std::fs::write(&file, bytes).unwrap();
         cx.call("load_cache_data", json!({"foreign_file": i}), format!("foreign{i}").as_bytes(), true, || {
